@@ -55,6 +55,12 @@ inline std::vector<T> multi_channel_refine_weights(
         sum_of_new_weights += new_weights[i];
     }
 
+    if (sum_of_new_weights == T())
+    {
+        // no information at all (every sampled value was zero): leave the weights as they are
+        return weights;
+    }
+
     T new_sum = T();
 
     for (T& weight : new_weights)
